@@ -166,6 +166,21 @@ def judge(run, result, record, who, action, obs):
         elif not run.ends[side].closed_events:
             problems.append(('no-close-callback', 'endpoint %s closed its socket but never ran its on-close callback' % side))
     if action != 'terminate':
+        # close() / lost peer: bundles that were accepted but never started must still be reported as not sent
+        for side in live:
+            # (started = announced by send_bundle_started; what becomes of a transfer cut off in mid-flight by an abrupt close is not stated)
+            started = set(str(ev['args'][0]) for ev in run.signals(side, 'send_bundle_started'))
+            fins = {}
+            for ev in run.signals(side, 'send_bundle_finished'):
+                fins.setdefault(str(ev['args'][0]), []).append(ev['args'][2])
+            for (tid, _payload, _no) in run.queued[side]:
+                if tid in started:
+                    continue
+                obs['queued_not_started_at_close'] = obs.get('queued_not_started_at_close', 0) + 1
+                if tid not in fins:
+                    problems.append(('lost', '%s: transfer %s was accepted, never started, and got no send_bundle_finished signal when the contact ended' % (side, tid)))
+                elif fins[tid] == ['success']:
+                    problems.append(('lost', '%s: transfer %s was never started but reported success' % (side, tid)))
         return problems
 
     # positions of SESS_TERM per direction
